@@ -379,7 +379,8 @@ def convSubscript (var : Name) (tgt : Option Name) (idx : List Idx) : M (Name ×
   let sc := scalarsOf 0 idx
   if !sl.isEmpty || decide (sc.length > 1) then do
     -- a scalar index `k` is treated as the slice `k:k+1:1` and its axis squeezed at the end
-    let all := sl ++ sc.map (fun p => (p.1, some p.2, some (p.2 + 1), some 1))
+    -- (1c8f626) for `k = -1` the end `k+1 = 0` would select nothing: slice to the end instead
+    let all := sl ++ sc.map (fun p => (p.1, some p.2, some (if p.2 = -1 then maxInt64 else p.2 + 1), some 1))
     let ((starts, ends, axes, steps), ns1, _) ← convSlices [] all
     let (s, n1) ← pickOrConcat (var ++ "_start") starts
     let (e, n2) ← pickOrConcat (var ++ "_end") ends
